@@ -282,9 +282,10 @@ pub fn user_op(op: &OpK, args: &[&Array], tag: usize) -> Array {
         }
         OpK::UScale(s) => {
             let s = *s as Float;
-            let fwd: ForwardOp = Rc::new(move |x: &[&Array]| {
-                plain(x[0].dimensions(), x[0].values().iter().map(|v| v * s).collect())
-            });
+            // the forward closure uses a differentiable library operation on its (possibly tracked) operand:
+            // whatever graph that builds inside the closure is not the operation's derivative - the
+            // closure supplied to Array::op is
+            let fwd: ForwardOp = Rc::new(move |x: &[&Array]| x[0] * s);
             let bwd: BackwardOp = Rc::new(move |_, t, x| {
                 log_push(tag, t, x);
                 vec![if t[0] {
